@@ -338,7 +338,7 @@ def rand_cfg(rng):
 
 def record_repo(task):
     """The repository's own BAMs (simple.sample*.bam, deep variants) at the loci of simple.bed."""
-    data = os.path.join(task["repo"], "mchap", "tests", "test_io", "data")
+    data = task["data"]  # a copy of the repository's test data under work/ (never read /repo in place: pysam may write indexes)
     fasta = os.path.join(data, "simple.fasta")
     vcf = os.path.join(data, "simple.vcf.gz")
     bed = os.path.join(data, "simple.bed")
